@@ -391,6 +391,11 @@ def jobs(tier, seed):
             if q and H * W >= 49 and o not in [(True, True, False), (True, False, True), (False, True, True)]:
                 continue
             out.append(dict(h="symbolic_picture", H=H, W=W, opts=list(o), max_seconds=3300))
+    # pictures of larger mazes (5x5 cells; thorough: 7x10 and 10x10 cells, the upper grid size the property names): one path each
+    for (H, W), os_ in ([((11, 11), [(True, True, False), (False, True, True)])] if q else
+                        [((11, 11), opts), ((15, 21), [(True, True, True), (True, False, False)]), ((21, 21), [(True, True, False), (False, True, True)])]):
+        for o in os_:
+            out.append(dict(h="symbolic_picture", H=H, W=W, opts=list(o), max_seconds=3300))
     for H, W in ([(1, 1), (2, 2), (3, 4), (5, 5)] if q else [(1, 1), (1, 3), (2, 2), (3, 4), (5, 5), (7, 7)]):
         out.append(dict(h="postproc", H=H, W=W, which="remove_isolated", max_seconds=3300))
         out.append(dict(h="postproc", H=H, W=W, which="extend", max_seconds=3300))
@@ -432,10 +437,10 @@ META = dict(
     functions=["rasterized.process_maze_rasterized_input_target", "lattice_maze._remove_isolated_cells", "rasterized._extend_pixels",
                "RasterizedMazeDataset.__getitem__/get_batch/from_base_MazeDataset", "SolvedMaze.as_pixels (integration harness)"],
     bounds=dict(
-        quick="a fully symbolic picture (each pixel any of the 5 colours) up to 7x7 px for the 8 option combinations (3 combinations at 7x7): one path per "
+        quick="a fully symbolic picture (each pixel any of the 5 colours) up to 7x7 px for the 8 option combinations (3 combinations at 7x7) and 11x11 px (5x5 cells) for 2 combinations: one path per "
               "combination covers all 5^(H*W) pictures; post-processing on images with arbitrary RGB channels (0..255) up to 5x5 px; integration with the "
               "real renderer on 2x2, 2x3 mazes (all bits symbolic, every simple solution of 1..3 cells from two corners); batches over index lists of length <=3",
-        thorough="pictures up to 9x9 and 5x11 px for all 8 combinations, RGB images up to 7x7, integration on 3x3 from every cell with solutions up to 4 cells",
+        thorough="pictures up to 9x9, 5x11 and 11x11 px for all 8 combinations, 15x21 and 21x21 px (10x10 cells) for 2 combinations each, RGB images up to 7x7, integration on 3x3 from every cell with solutions up to 4 cells",
     ),
     degenerate=dict(batch="concrete mazes; index lists forked (real torch tensors cannot hold symbolic values)"),
     stubs=stubs_description(np_modules=["maze_dataset.maze.lattice_maze", "maze_dataset.dataset.rasterized"], stub_ascii=False) + [
